@@ -12,7 +12,7 @@ the counterexample that motivated the repair).
 
 Nothing here looks at byte *values*, so the model is generic in the element type `α`
 (the driver uses `UInt8`), and generic in the buffer capacity `cap`
-(`CONFIG_MAX_WRITE_BUFFER_SIZE`; `Cjet.Generated.Consts.cfgMaxWriteBufferSize` for the repository).
+(`CONFIG_MAX_WRITE_BUFFER_SIZE`; `Cjet.Generated.cfgMaxWriteBufferSize` for the repository).
 
 The kernel is an input: every kernel `writev` call that requests `m > 0` bytes consumes one
 answer of the script (`KW`); when the script is exhausted the kernel answers "would block".
